@@ -98,6 +98,9 @@ class DnsRecordDnskey(ParsableBase, Serializable):
             key_parser.parse_numeric('exponent_length_two_octets', 2)
             exponent_length = key_parser['exponent_length_two_octets']
         key_parser.parse_mpint('public_exponent', exponent_length)
+        if not key_parser['public_exponent']:
+            # an exponent of zero would be composed in no octets at all, and a length of zero announces the long form
+            raise InvalidValue(key_parser['public_exponent'], cls, 'public_exponent')
         key_parser.parse_mpint('modulus', key_parser.unparsed_length)
 
         return PublicKey.from_params(PublicKeyParamsRsa(
